@@ -20,6 +20,10 @@ ASSUMPTIONS = [
 ]
 
 
+WITNESSES = {"C19-init-false-default": c19_concrete.init_false_default_witness,
+             "C19-zero-arg-super": c19_concrete.zero_arg_super_witness}
+
+
 def searcher(ob):
     fails, n = c19_concrete.search("quick", 0, stop_at=1)
     if fails:
@@ -50,5 +54,7 @@ def main(tier, seed):
                                 "pickle agree with the plain dataclass; instance __dict__ only when requested or inherited; decorating again never raises"})
     for i, f in enumerate(fails):
         chk.violation(f"bounded-replay#{i}", {"found": True, "kind": "c19-case", "case": f}, True)
+    chk.known_witness("C19-init-false-default", c19_concrete.init_false_default_witness, "a field declared field(default=..., init=False)")
+    chk.known_witness("C19-zero-arg-super", c19_concrete.zero_arg_super_witness, "a method using zero-argument super()")
     chk.resolve_failures(searcher)
     return chk.finish(level="other", explanation="Structural clauses S1-S5 of classes.slotted / wrap are discharged as verification conditions from the real AST (symbolic namespace, loop invariant for the erase loop); the behavioural-equivalence half of the statement depends on CPython's class machinery and is only replayed by a bounded sweep over synthesised dataclasses (never counted as proved).")
